@@ -46,7 +46,7 @@ BE = 'verilog'
 
 def streams(ck):
   quick = ck.tier == 'quick'
-  return {'clean': 180 if quick else 2600, 'clean_c12': 120 if quick else 1500, 'finding_each': 3 if quick else 12, 'ncycles': 5 if quick else 8,
+  return {'clean': 150 if quick else 1500, 'clean_c12': 120 if quick else 1000, 'finding_each': 3 if quick else 12, 'ncycles': 5 if quick else 8,
           'nstores': 6 if quick else 16, 'batch': 24}
 
 def run(ck):
@@ -74,7 +74,7 @@ def run(ck):
     batch = [G.gen_clean(random.Random(rng.getrandbits(64)), BE, {'wide': True}) for _ in range(n)]
     U.run_batch(ck, BE, batch, stats, cfg['ncycles'], cfg['nstores'])
     done += n
-    if len(ck.violations) > 60: break
+    if len([v for v in ck.violations if not str(v.signature.get('finding', 'none')).startswith('F')]) > 40: break
     if ck.tier == 'quick' and ck.elapsed() > 75: break
   ck.extra_cov['pipeline'] = stats
   ck.extra_cov['designs'] = {'corpus': len(corpus), 'finding_streams': len(fd), 'clean': done}
@@ -89,7 +89,7 @@ def replay(ck, data):
   if d['cycles'] is None: d.pop('cycles')
   stats = {}
   be = case.get('backend', BE)
-  jobs = U.run_batch(ck, be, [d], stats, 6, 8)
+  jobs = U.run_batch(ck, be, [d], stats, 6, 8, keep=True)
   j = jobs[0]
   print('design:\n' + d['src'])
   print('stage:', j.stage, j.info if j.stage != 'ok' else '')
